@@ -17,6 +17,7 @@ import (
 	"github.com/kubewharf/kubebrain/pkg/backend"
 	"github.com/kubewharf/kubebrain/pkg/backend/coder"
 	"github.com/kubewharf/kubebrain/pkg/backend/scanner"
+	"github.com/kubewharf/kubebrain/pkg/metrics"
 	"github.com/kubewharf/kubebrain/pkg/server/service/leader"
 	"github.com/kubewharf/kubebrain/pkg/storage"
 	"github.com/kubewharf/kubebrain/pkg/verifhook"
@@ -57,6 +58,36 @@ type backendSuite struct {
 
 	// highest revision seen in any write response header (for `sync`)
 	maxHdr uint64
+
+	// stepped repair: a released retry() is being stepped under the pseudo client id retryCid
+	rActive int32
+}
+
+// retryMetrics passes every metric through to the production client and, in stepped-repair mode, turns the
+// histogram the retry loop emits at the END of each retry() (deferred: after the dispatcher was told and the
+// queue popped) into the completion event of pseudo client R: `done R retry <state>` with <state> one of
+// success | failed_get | failed_put | unknown_put | unnecessary (retry.go's own classification).
+type retryMetrics struct {
+	metrics.Metrics
+	s *backendSuite
+}
+
+func (m *retryMetrics) EmitHistogram(name string, value interface{}, tags ...metrics.T) error {
+	err := m.Metrics.EmitHistogram(name, value, tags...)
+	if name == "async_retry.retry" && atomic.LoadInt32(&m.s.rActive) == 1 && m.s.c.onRetryGoroutine() {
+		state := "?"
+		for _, t := range tags {
+			if t.Name == "state" {
+				state = t.Value
+			}
+		}
+		atomic.StoreInt32(&m.s.rActive, 0)
+		m.s.c.mu.Lock()
+		delete(m.s.c.clients, retryCid)
+		m.s.c.mu.Unlock()
+		m.s.c.arrived <- arrival{cid: retryCid, done: true, line: "retry " + state}
+	}
+	return err
 }
 
 // campaignBackend is the Backend handed to the real leader election: it records the revision the new
@@ -110,6 +141,7 @@ func newBackendSuite(opts map[string]string) *backendSuite {
 			s.c.splits = append(s.c.splits, unhx(h))
 		}
 	}
+	s.c.retrySteps = opts["retrysteps"] == "1"
 	if _, ok := opts["retry"]; ok {
 		backend.VerifSetRetryIntervals(durOpt(opts, "retry", 0), durOpt(opts, "check", 5*time.Millisecond))
 	}
@@ -154,7 +186,11 @@ func (s *backendSuite) config(identity string) backend.Config {
 }
 
 func (s *backendSuite) newBackend(identity string) backend.Backend {
-	return backend.NewBackend(s.kv, s.config(identity), getMetrics())
+	var m metrics.Metrics = getMetrics()
+	if s.c.retrySteps {
+		m = &retryMetrics{Metrics: m, s: s}
+	}
+	return backend.NewBackend(s.kv, s.config(identity), m)
 }
 
 func (s *backendSuite) close() {
@@ -164,6 +200,9 @@ func (s *backendSuite) close() {
 
 // hookGate is installed as the verifhook gate function.
 func (s *backendSuite) hookGate(name string) {
+	if name == "retry.step" && s.c.retrySteps {
+		s.c.noteRetryGoroutine()
+	}
 	s.hmu.Lock()
 	g := s.hooks[name]
 	if g == nil || !g.armed {
@@ -690,6 +729,17 @@ func (s *backendSuite) do(t []string) string {
 		ch := g.waiting[0]
 		g.waiting = g.waiting[1:]
 		s.hmu.Unlock()
+		if s.c.retrySteps && s.c.gated {
+			// stepped repair: the released retry() parks at each of its storage calls as pseudo client R
+			// (`at R iter`, `at R commit`), is advanced by `step R [f=e|ua|un]` and ends with `done R retry <state>`
+			rch := make(chan string, 1)
+			s.c.mu.Lock()
+			s.c.clients[retryCid] = rch
+			s.c.mu.Unlock()
+			atomic.StoreInt32(&s.rActive, 1)
+			close(ch)
+			return s.awaitClient(retryCid)
+		}
 		close(ch)
 		return "retry ok"
 	case "dellog":
